@@ -27,22 +27,7 @@ func init() {
 		// 2. the key list is replaced only by the install helper, which builds a fresh list
 		rule2 := "the key list is only ever replaced by the install helper (and the pre-publication initialiser); the helper builds a fresh slice whose first element is the requested primary and appends only keys different from it"
 		c.Rule(rule2)
-		var install *core.Func
-		nw := 0
-		for _, s := range c.G.SitesOfKind("W:Keyring.keys") {
-			nw++
-			if s.Fn == initFn {
-				continue
-			}
-			if install != nil && install != s.Fn {
-				c.Check("C17/keys-writers/"+s.Fn.Name, rule2, s.Pos, false, "second writer of the key list: "+s.Fn.Name)
-			}
-			install = s.Fn
-		}
-		c.Floor("key-list assignments", nw, 2)
-		if install == nil {
-			fail("anchor unresolved: install helper (assigns Keyring.keys)")
-		}
+		install := c.installAnchor("C17", rule2, true)
 		c.Funcs[install.Name] = true
 		c.Check("C17/install/fresh-primary-first", rule2, install.Decl.Pos(), installShape(p, install), "install helper does not build {primary} + (keys != primary)")
 		for _, s := range c.G.SitesOfKind("WELEM:Keyring.keys") {
@@ -74,6 +59,89 @@ func init() {
 		// 5. senders use the primary, receivers try all keys
 		checkKeyUse(c)
 	})
+}
+
+// installAnchor finds the install helper: the one function (besides the
+// pre-publication initialiser) that assigns Keyring.keys - or, when a later
+// change made the helper a pure function, the function whose result every
+// assignment of Keyring.keys stores (k.keys = f(list, primary)). In the second
+// form the calls of the function are kept opaque (not followed in place), so
+// that the rules read them as "the install" like a call of the method.
+func (c *Ctx) installAnchor(prop, rule string, report bool) *core.Func {
+	if a, ok := c.models["installAnchor"]; ok {
+		return a.(*core.Func)
+	}
+	p := c.P
+	initFn := c.MustFunc("Keyring.init")
+	var writers []*core.Site
+	for _, s := range c.G.SitesOfKind("W:Keyring.keys") {
+		if s.Fn != initFn {
+			writers = append(writers, s)
+		}
+	}
+	if report {
+		c.Floor("key-list assignments", len(writers)+1, 2)
+	}
+	if len(writers) == 0 {
+		fail("anchor unresolved: install helper (assigns Keyring.keys)")
+	}
+	// form 2: every writer stores the result of a call to one same-package function
+	var pure *core.Func
+	allPure := true
+	for _, s := range writers {
+		var stmt ast.Node = s.Node
+		for i := 0; stmt != nil && i < 3; i++ {
+			if _, isA := stmt.(*ast.AssignStmt); isA {
+				break
+			}
+			stmt = p.Parent(stmt)
+		}
+		as, isA := stmt.(*ast.AssignStmt)
+		if !isA || len(as.Lhs) != 1 || len(as.Rhs) != 1 {
+			allPure = false
+			break
+		}
+		call, isC := ast.Unparen(as.Rhs[0]).(*ast.CallExpr)
+		if !isC {
+			allPure = false
+			break
+		}
+		f := p.Callee(call)
+		if f == nil || f.Pkg() != p.Types || p.ByObj[f] == nil || (pure != nil && p.ByObj[f] != pure) {
+			allPure = false
+			break
+		}
+		pure = p.ByObj[f]
+	}
+	var install *core.Func
+	if allPure && pure != nil && len(c.G.Summary(pure)) == 0 {
+		install = pure
+		if c.opaqueNew == nil {
+			c.opaqueNew = map[string]bool{}
+		}
+		c.opaqueNew[pure.Name] = true
+		// its result must not go anywhere but into the key list
+		for _, s := range c.G.Callers(pure) {
+			ok := false
+			if s.Call != nil {
+				if as, isA := p.Parent(s.Call).(*ast.AssignStmt); isA && len(as.Lhs) == 1 && p.FieldOwner(as.Lhs[0]) == "Keyring.keys" {
+					ok = true
+				}
+			}
+			if report {
+				c.Check(prop+"/keys-writers/"+s.Fn.Name, rule, s.Pos, ok, "the fresh list built by "+pure.Name+" is not stored in the key list in "+s.Fn.Name)
+			}
+		}
+	} else {
+		for _, s := range writers {
+			if install != nil && install != s.Fn && report {
+				c.Check(prop+"/keys-writers/"+s.Fn.Name, rule, s.Pos, false, "second writer of the key list: "+s.Fn.Name)
+			}
+			install = s.Fn
+		}
+	}
+	c.models["installAnchor"] = install
+	return install
 }
 
 var keysIdxRe = regexp.MustCompile(`m\.keys\[[^\]]*\]`)
@@ -166,6 +234,13 @@ func installShape(p *core.Prog, fn *core.Func) bool {
 					}
 				}
 			}
+		case *ast.ReturnStmt:
+			// the pure form hands the fresh list back (its callers store it: installAnchor)
+			if len(v.Results) == 1 && fresh != nil {
+				if id, ok := ast.Unparen(v.Results[0]).(*ast.Ident); ok && p.Info.Uses[id] == p.Info.Defs[fresh] {
+					okAssign = true
+				}
+			}
 		case *ast.RangeStmt:
 			rid, ok := ast.Unparen(v.X).(*ast.Ident)
 			if !ok || p.Info.Uses[rid] != p.Info.Defs[list] || len(v.Body.List) != 1 {
@@ -214,6 +289,9 @@ func checkKeyringMethods(c *Ctx, install *core.Func) {
 				if strings.HasPrefix(k, "eq(") && strings.Contains(k, "key") && v == "T" {
 					return false, "duplicate reaches the install"
 				}
+				if u := untok(k); u == "indexEq(m.keys,key)>=0" && v == "T" {
+					return false, "duplicate reaches the install"
+				}
 			}
 			if !strings.HasPrefix(e.Detail["arg0"], "append(m.keys,key)") {
 				return false, "installed list is not append(keys, key): " + e.Detail["arg0"]
@@ -242,6 +320,9 @@ func checkKeyringMethods(c *Ctx, install *core.Func) {
 				if strings.HasPrefix(k, "eq(") && strings.Contains(k, "key") && v == "T" {
 					eq = true
 				}
+				if u := untok(k); (u == "indexEq(m.keys,key)>=0" || u == "indexEq(m.keys,key)>=1") && v == "T" {
+					eq = true // found by the library search
+				}
 			}
 			return eq && e.Detail["arg0"] == "m.keys" && (e.Detail["arg1"] == "key" || strings.HasPrefix(e.Detail["arg1"], "rangeval")), "install not guarded by equality with an installed key, or list/primary arguments wrong: " + e.Detail["arg0"] + "," + e.Detail["arg1"]
 		})
@@ -252,6 +333,9 @@ func checkKeyringMethods(c *Ctx, install *core.Func) {
 		}
 	}
 	for _, s := range c.G.Sites[use] {
+		if s.Kind == "W:Keyring.keys" && c.opaqueNew[install.Name] {
+			continue // stores the install function's result (checked by installAnchor)
+		}
 		if s.Kind == "W:Keyring.keys" || s.Kind == "WELEM:Keyring.keys" {
 			c.Check("C17/use/no-direct-write", "UseKey changes the ring only through the install helper", s.Pos, false, "direct store to the key list in UseKey")
 		}
@@ -267,7 +351,17 @@ func checkKeyringMethods(c *Ctx, install *core.Func) {
 				v, ok = cubeAtom(e.Cube, "eq(m.keys[0],key)", "")
 			}
 			if !ok || v != "F" {
-				return false, "install reachable without having compared the key with the primary"
+				// the first installed key equal to the argument sits at index >= 1: the
+				// primary (index 0) differs
+				found := false
+				for k, v2 := range e.Cube {
+					if untok(k) == "indexEq(m.keys,key)>=1" && v2 == "T" {
+						found = true
+					}
+				}
+				if !found {
+					return false, "install reachable without having compared the key with the primary"
+				}
 			}
 			return e.Detail["arg1"] == "m.keys[0]", "primary argument is " + e.Detail["arg1"]
 		})
@@ -335,6 +429,12 @@ func (s *idxSpec) Node(x *gea.Exec, st *gea.State, n ast.Node) *gea.State {
 func rangesKeysComparing(p *core.Prog, fn *core.Func) bool {
 	ok := false
 	inspectFn(fn, func(n ast.Node) bool {
+		// the library search with an equality predicate compares with every element too
+		if call, isC := n.(*ast.CallExpr); isC && len(call.Args) == 2 && p.FieldOwner(call.Args[0]) == "Keyring.keys" {
+			if f := p.Callee(call); f != nil && (core.FuncFullName(f) == "slices.IndexFunc" || core.FuncFullName(f) == "slices.ContainsFunc") && gea.EqPredicateOperand(p, call.Args[1]) != nil {
+				ok = true
+			}
+		}
 		rs, isR := n.(*ast.RangeStmt)
 		if !isR || p.FieldOwner(rs.X) != "Keyring.keys" {
 			return true
@@ -401,7 +501,7 @@ func checkInstallCallers(c *Ctx, prop string, install *core.Func) {
 			}
 			ninst++
 			ok, why := derivedFromInstalled(untok(e.Detail["arg0"]))
-			if ok && strings.Contains(untok(e.Detail["arg0"]), ",key)") {
+			if ok && strings.Contains(keysIdxRe.ReplaceAllString(untok(e.Detail["arg0"]), "m.keys"), ",key)") {
 				// plus-one-key form: needs validation and the duplicate scan on this path
 				v, okv := cubeAtom(e.Cube, "ValidateKey(key)", "==nil")
 				if !okv || v != "T" || !rangesKeysComparing(p, s.Fn) {
@@ -448,6 +548,26 @@ func checkRemoveExact(c *Ctx) {
 		})
 		return true
 	})
+	// the matched index may also come from the library search (directly or through a
+	// helper extracted for it): i := <search for the key in the installed list>
+	if len(srcs) == 0 {
+		xr := c.flow(rem, map[string]string{})
+		for _, e := range xr.Effects {
+			if !strings.HasPrefix(e.Class, "CALL:") || !strings.Contains(e.Class, "Keyring.") {
+				continue
+			}
+			a0 := untok(e.Detail["arg0"])
+			for _, part := range []string{"m.keys[:indexEq(m.keys,key)]", "m.keys[(indexEq(m.keys,key)+1):]"} {
+				if strings.Contains(a0, part) {
+					srcs[strings.Replace(strings.TrimPrefix(part, "m.keys"), "indexEq(m.keys,key)", "i", 1)] = true
+					a0 = strings.Replace(a0, part, "", 1)
+				}
+			}
+			if strings.Contains(a0, "m.keys[") {
+				srcs["other"] = true
+			}
+		}
+	}
 	okSrc := len(srcs) == 2 && srcs["[:i]"] && srcs["[(i+1):]"]
 	var got []string
 	for k := range srcs {
